@@ -113,7 +113,7 @@ def generate(repo, use_cache=True):
         if rc != 0 or not os.path.exists(out_v) or not os.path.exists(out_j):
             return False, None, None, 'sigdump --bodies failed on %s/src: %s' % (repo, out[-2000:])
         open(os.path.join(gdir, 'done'), 'w').write(out)
-        prune('gen-', keep=12, spare=gdir)
+        prune('gen-', keep=24, spare=gdir)
     return True, read(out_v), json.loads(read(out_j)), out
 
 
@@ -186,7 +186,8 @@ def check(bodies_v, info, use_cache=True):
     missing = [v for v in IMPORTED_VO if not os.path.exists(os.path.join(COQ, v))]
     if missing:
         return dict(ok=False, theorems=[], failed=[dict(theorem=None, function=None, error='/verif/coq is not built (missing %s): run make in /verif/coq first' % ', '.join(missing))])
-    key = sha(*[k + '\n' + v for k, v in sorted(files.items())], *[read(os.path.join(COQ, v), 'rb') for v in IMPORTED_VO])[:20]
+    key = sha(read(os.path.abspath(__file__), 'rb'), *[k + '\n' + v for k, v in sorted(files.items())],
+              *[read(os.path.join(COQ, v), 'rb') for v in IMPORTED_VO])[:20]
     bdir = os.path.join(CACHE, 'build-' + key)
     resf = os.path.join(bdir, 'result.json')
     if use_cache and os.path.exists(resf):
@@ -249,7 +250,7 @@ def check(bodies_v, info, use_cache=True):
                    theorems=names, proved=[n for n in names if n not in bad] if (not failed or all(x.get('theorem') for x in failed)) else [],
                    failed=failed)
         json.dump(res, open(resf, 'w'))
-        prune('build-', keep=8, spare=bdir)
+        prune('build-', keep=24, spare=bdir)
     return res
 
 
